@@ -243,6 +243,28 @@ def can_be_plain_string(node: mparser.StringNode) -> bool:
     return node.is_multiline and not any(x in node.value for x in ['\n', "'", '\\'])
 
 
+def flattened_files_arguments(node: mparser.FunctionNode) -> mparser.ArgumentNode:
+    '''The arguments a function call has once files([...]) is written files(...)
+    (see TrimWhitespaces.visit_FunctionNode, which runs after the enclosing
+    argument list has been examined)'''
+    args = node.args
+    if node.func_name.value != 'files':
+        return args
+    while len(args.arguments) == 1 and not args.kwargs:
+        arg = args.arguments[0]
+        if not isinstance(arg, mparser.ArrayNode):
+            break
+        # unless that would drop a comment attached to the brackets
+        dropped = [arg.lbracket, arg.rbracket, arg, args, *args.commas]
+        if not arg.args.arguments and not arg.args.kwargs:
+            # the whitespaces of `[` are moved there when the array is empty
+            dropped.append(arg.args)
+        if any(n.whitespaces and '#' in n.whitespaces.value for n in dropped):
+            break
+        args = arg.args
+    return args
+
+
 class MultilineArgumentDetector(FullAstVisitor):
 
     def __init__(self, config: FormatterConfig, function_arguments: T.Optional[mparser.ArgumentNode] = None):
@@ -262,6 +284,9 @@ class MultilineArgumentDetector(FullAstVisitor):
 
     def visit_FunctionNode(self, node: mparser.FunctionNode) -> None:
         self.function_arguments.add(id(node.args))
+        # The arguments of the array of files([...]) are going to be the
+        # arguments of the function.
+        self.function_arguments.add(id(flattened_files_arguments(node)))
         super().visit_FunctionNode(node)
 
     def visit_MethodNode(self, node: mparser.MethodNode) -> None:
